@@ -552,6 +552,7 @@ def main():
     l.add_argument('--tier', default='quick')
     sub.add_parser('selfcheck')
     a = ap.parse_args()
+    R.install_cleanup()
     if a.cmd == 'selfcheck':
         sys.exit(do_selfcheck())
     if a.cmd == 'check':
